@@ -6,7 +6,8 @@
 
    The model is of the code with the repairs D3 (events are polled only when the event deque is
    empty), D4-D6 (C04), D7 (a decode / reassembly error is Evt19 / AA-8), D8 (no blocking read in
-   Sta13) and D18 (undefined state/event pairs are ignored). *)
+   Sta13), D18 (undefined state/event pairs are ignored) and D23 (a failed write is a closed transport
+   connection: `wf`). *)
 From PND Require Import Lib.Base Spec.Ps38Table.
 
 (* abort source classes (the source byte of an A-ABORT PDU) *)
@@ -81,9 +82,16 @@ Definition set_out (c : ctrl) (o : outcome) : ctrl :=
 
 (* ---- actions (fsm.py), one clause per method ---------------------------------------------- *)
 (* a send on a missing transport is `None.sendall` -> AttributeError out of the loop *)
-Definition send (c : ctrl) (k : kind) (fresh : bool) (next : ctrl -> ctrl * list output)
+(* `wf` (write fails): the transport refuses the write (the peer has reset or closed the connection).
+   sendall raises out of the action: nothing after it happens, the state does not change; run() closes
+   the socket and queues Evt17 (repair D23). *)
+Definition write_failed (c : ctrl) : ctrl * list output := (set_pend (set_sock c false) (Some 17), [OClose]).
+
+Definition send (wf : bool) (c : ctrl) (k : kind) (fresh : bool) (next : ctrl -> ctrl * list output)
   : ctrl * list output :=
-  if c_sock c then let (c', outs) := next c in (c', OSend k fresh :: outs)
+  if c_sock c then
+    if wf then write_failed c
+    else let (c', outs) := next c in (c', OSend k fresh :: outs)
   else (set_out c Crashed, []).
 
 Definition close (c : ctrl) : ctrl * list output :=
@@ -93,13 +101,17 @@ Definition close (c : ctrl) : ctrl * list output :=
 Definition fresh (k : kind) (r : ctrl * list output) : ctrl * list output :=
   (fst r, OSetPrim k :: snd r).
 
-Definition aa8 (c : ctrl) : ctrl * list output :=
+Definition aa8 (wf : bool) (c : ctrl) : ctrl * list output :=
   let c1 := set_pk c (KAbort S2) in
   fresh (KAbort S2)
-    (if c_sock c1 then (set_st (set_tmr c1 true) 13, [OSend (KAbort S2) true; OInd (KAbort S2) true; OTStart])
+    (if c_sock c1 then
+       if wf then write_failed c1
+       else (set_st (set_tmr c1 true) 13, [OSend (KAbort S2) true; OInd (KAbort S2) true; OTStart])
      else (set_st c1 13, [])).
 
-Definition act (a : action) (c : ctrl) (dec : decans) : ctrl * list output :=
+Definition actw (wf : bool) (a : action) (c : ctrl) (dec : decans) : ctrl * list output :=
+  let send := send wf in
+  let aa8 := aa8 wf in
   let pk := c_pk c in
   match a with
   | AE1 => (set_st (set_sock c true) 4, [OOpen])
@@ -140,12 +152,15 @@ Definition act (a : action) (c : ctrl) (dec : decans) : ctrl * list output :=
   | AA8 => aa8 c
   end.
 
+Definition act (a : action) (c : ctrl) (dec : decans) : ctrl * list output := actw false a c dec.
+
 (* StateMachine.action: an undefined (event, state) pair is ignored *)
-Definition dispatch (c : ctrl) (e : N) (dec : decans) : ctrl * list output :=
+Definition dispatchw (wf : bool) (c : ctrl) (e : N) (dec : decans) : ctrl * list output :=
   match table e (c_st c) with
-  | Some a => act a c dec
+  | Some a => actw wf a c dec
   | None => (c, [])
   end.
+Definition dispatch (c : ctrl) (e : N) (dec : decans) : ctrl * list output := dispatchw false c e dec.
 
 (* ---- one iteration of DULServiceProvider.run ------------------------------------------------- *)
 (* _check_network() or _check_outgoing_pdu() or _check_timer(): at most one new event *)
@@ -185,18 +200,18 @@ Definition poll (c : ctrl) (i : input) : ctrl * option N * list output :=
          end
   else poll_outgoing c i.
 
-Definition cstep0 (c : ctrl) (i : input) : ctrl * list output :=
+Definition cstep0w (wf : bool) (c : ctrl) (i : input) : ctrl * list output :=
   match c_out c with
   | Running =>
     if i_kill i then (set_out c Returned, [])
     else
       match c_pend c with
-      | Some e => dispatch (set_pend c None) e (i_dec i)
+      | Some e => dispatchw wf (set_pend c None) e (i_dec i)
       | None =>
         match poll c i with
         | (c1, Some e, o1) =>
             match c_out c1 with
-            | Running => let (c2, o2) := dispatch c1 e (i_dec i) in (c2, o1 ++ o2)
+            | Running => let (c2, o2) := dispatchw wf c1 e (i_dec i) in (c2, o1 ++ o2)
             | _ => (c1, o1)
             end
         | (c1, None, o1) => (c1, o1)
@@ -206,12 +221,15 @@ Definition cstep0 (c : ctrl) (i : input) : ctrl * list output :=
   end.
 
 (* run(): `except Exception: self.to_service_user.put(AAbortPDU(source=0, reason_diag=0)); raise` *)
-Definition cstep (c : ctrl) (i : input) : ctrl * list output :=
-  let (c', o) := cstep0 c i in
+Definition cstepw (wf : bool) (c : ctrl) (i : input) : ctrl * list output :=
+  let (c', o) := cstep0w wf c i in
   match c_out c, c_out c' with
   | Running, Crashed => (c', o ++ [OInd (KAbort S0) true])
   | _, _ => (c', o)
   end.
+(* the transport accepts every write: the setting of all theorems that do not mention `wf` *)
+Definition cstep0 (c : ctrl) (i : input) : ctrl * list output := cstep0w false c i.
+Definition cstep (c : ctrl) (i : input) : ctrl * list output := cstepw false c i.
 
 (* DULServiceProvider.__init__: an acceptor starts with Evt5 queued and the client socket *)
 Definition init (requestor : bool) : ctrl :=
